@@ -150,6 +150,7 @@ class RealWorld:
         self.now = 0
         self.deadline = {}
         self.calls = []
+        self.script = []
         self.out = dict(NO_OUT)
         self.crash = None
 
@@ -168,6 +169,7 @@ class RealWorld:
 
     # -- actions ---------------------------------------------------------
     def arrive(self, r, d):
+        self.script.append(["Arrive", r, d])
         t = self.task[r]
         t.update_deadline(us(d))
         t.release(us(self.now))
@@ -175,6 +177,7 @@ class RealWorld:
         self.out = dict(NO_OUT)
 
     def tick(self, d):
+        self.script.append(["Tick", d])
         done = self.pool.step(us(self.now), us(d))
         self.now += d
         for t in done:
@@ -183,6 +186,7 @@ class RealWorld:
         self.out = dict(NO_OUT)
 
     def invoke(self):
+        self.script.append(["Invoke"])
         N = ns()
         PT = N.Placement.PlacementType
         offered = [self.req_of_task[t.id] for t in self.workload.get_schedulable_tasks(time=us(self.now))]
@@ -283,6 +287,9 @@ class RealWorld:
                 ],
             },
             "calls": list(self.calls),
+            "goal": self.cfg["Goal"],
+            "cfg": _norm({k: self.cfg[k] for k in ("Strats", "Reqs", "Workers", "Goal", "InitOrder")}),
+            "script": list(self.script),
         }
 
 
@@ -296,6 +303,7 @@ class CollectingWorld(RealWorld):
         self.hist = {}
         self.n_exec = 0
         self.calls = []
+        self.script = []
         self.deadline = {}
 
     def _flush(self):
@@ -329,7 +337,7 @@ def rec_check(histories, scratch, name):
     name = re.sub(r"\W", "_", name)
     path = os.path.join(scratch, f"{name}.json")
     with open(path, "w") as f:
-        json.dump(histories, f)
+        json.dump([{"id": h["id"], "world": h["world"], "calls": h["calls"]} for h in histories], f)
     mod, cf = mcgen.write_mc(
         scratch,
         "Clockwork",
@@ -460,8 +468,6 @@ def random_history(seed_salt, n):
         except Exception as ex:  # the code under test raised: keep what was observed
             wd.crash = f"{type(ex).__name__}: {ex}"
         h = wd.history(f"{seed_salt}/{i}")
-        h["goal"] = cfg["Goal"]
-        h["cfg"] = _norm(cfg)
         if wd.crash:
             h["crash"] = wd.crash
             stats["crashed"] += 1
@@ -735,8 +741,6 @@ def _replay_graph_job(name, cfg, tier):
             break
     rp.random_walks(200 if q else 5000, 30, rng("Rw" + name))
     hist = world.histories()
-    for h in hist:
-        h["goal"] = cfg["Goal"]
     res.extra.setdefault("replay", []).append(
         {
             "model": name,
@@ -823,8 +827,6 @@ def _replay_sim_job(name, cfg, tier, num, depth, seed):
         for k, v in _shape_stats(g).items():
             shapes[k] += v
     hist = world.histories()
-    for h in hist:
-        h["goal"] = cfg["Goal"]
     res.extra.setdefault("replay", []).append(
         {
             "model": name,
@@ -857,7 +859,7 @@ def jobs_R(tier):
 
 
 def jobs_T(tier):
-    n, per = (1200, 150) if tier == "quick" else (40000, 2500)
+    n, per = (1200, 300) if tier == "quick" else (40000, 2500)
     return [(_t_job, (f"T{k}", per, tier)) for k in range(n // per)]
 
 
@@ -902,8 +904,10 @@ def run(tier: str) -> CheckResult:
     if tier != "quick":  # long runs: let the JIT optimise fully
         JOPTS = mcgen.LIB_OPT + ["-XX:ParallelGCThreads=4", "-Xss16m"]
     ns()
+    import schedulers  # noqa: F401  (imported before forking: the package pulls in every solver back-end)
+
     jobs = jobs_M(tier) + jobs_R(tier) + jobs_T(tier)  # longest first
-    for part in parallel(_dispatch, jobs, procs=12):
+    for part in parallel(_dispatch, jobs, procs=10):
         res.merge(part)
     _aggregate(res.extra)
     res.extra["clauses"] = PROPERTY_CLAUSES + ["C15.batch_eq"]
@@ -912,10 +916,25 @@ def run(tier: str) -> CheckResult:
 
 
 def replay(d):
-    """run.py --replay: re-run the failing history on the real scheduler when it carries its world."""
+    """run.py --replay: re-run the stored action script on the real scheduler of the current
+    repository and let TLC check the recorded calls again.  Returns 1 if a clause still fails."""
     det = d.get("detail", {})
     h = det.get("history")
-    if not h or "cfg" not in h:
+    if not h or "script" not in h:
         return 0
-    print("stored calls:", json.dumps(h["calls"])[:2000])
-    return 0
+    ns()
+    wd = RealWorld(h["cfg"])
+    wd.fresh()
+    try:
+        for a in h["script"]:
+            wd.apply(a[0], a[1:])
+    except Exception as ex:  # noqa
+        print(f"the scheduler raised: {type(ex).__name__}: {ex}")
+        return 1
+    again = wd.history(h["id"])
+    print("calls now:", json.dumps(again["calls"]))
+    with Scratch() as scratch:
+        bad, counts, _ = rec_check([again], scratch, "replay")
+    for b in bad:
+        print("still failing:", b)
+    return 1 if bad else 0
